@@ -631,6 +631,8 @@ Definition rec_run (items : list item) (inj : inject) (plan : list action) (ncom
    The observed log is the flat list of Consume calls in the order they happened; the oracle walks
    the plan: the k-th commit action owns the next [length items] calls. *)
 
+Definition is_nil {A} (l : list A) : bool := match l with [] => true | _ => false end.
+
 Section Oracle.
   Variable U : Type.
   Variable ueqb : U -> U -> bool.
@@ -665,8 +667,7 @@ Section Oracle.
         Nat.eqb (k_item c) j && item_eqb (k_desc c) it &&
         forallb (fun e => oveqb (dlookup e (k_deps c)) (expected e pre d0))
                 (k_commit :: k_index :: k_merge :: i_requires it ++ map fst (k_deps c)) &&
-        (if complete c then step_calls_ok (S j) ir cr (pre ++ [c]) d0
-         else match cr with [] => true | _ => false end)
+        (if complete c then step_calls_ok (S j) ir cr (pre ++ [c]) d0 else is_nil cr)
     | _, _ => false
     end.
 
@@ -679,18 +680,16 @@ Section Oracle.
   Fixpoint log_ok (early : bool) (full : list action) (its : list item) (todo : list action) (idx : N)
                   (log : list (call U)) : bool :=
     match todo with
-    | [] => match log with [] => true | _ => false end
+    | [] => is_nil log
     | ACommit c _ :: r =>
-        match log, its with
-        | [], _ :: _ => early
-        | _, _ =>
-          let n := length its in
+        let n := length its in
+        if is_nil log && negb (Nat.eqb n 0) then early
+        else
           let cs := firstn n log in
           let d0 := meta_deps c idx (Nat.leb 2 (length (replay_branches full (c_id c)))) in
           step_calls_ok 0 its cs [] d0 &&
           (if step_complete cs n then log_ok early full its r (N.succ idx) (skipn n log)
-           else match skipn n log with [] => true | _ => false end)
-        end
+           else is_nil (skipn n log))
     | _ :: r => log_ok early full its r idx log
     end.
 End Oracle.
